@@ -508,7 +508,41 @@ func runBridgeScenario(t *testing.T, fam string, seed uint64, idx int, out *bufi
 		if idx < nGate {
 			kind = "gate"
 		}
-		r.line("scenario\t%s\t%d\t%d\t%s", fam, seed, idx, kind)
+		// policy: q = quiescent stepping; sched = every verif scheduling point of the shared client and
+		// the server parks its goroutine and the scenario releases parked goroutines in a generated order
+		// (so the id allocations and sends of concurrent Batch calls interleave)
+		policy := "q"
+		if kind == "conc" && idx%3 == 1 {
+			policy = "sched"
+		}
+		sc := &sched{on: policy == "sched"}
+		if sc.on {
+			// The local pipe is unbuffered and the client sends under its mutex: a server reader parked
+			// between Recv and its critical section would leave a sender blocked inside the client's
+			// critical section, and the next goroutine waiting for that mutex is not durably blocked
+			// (synctest.Wait would never return). The reader is therefore not a scheduling point here.
+			jrpc2.VerifSetHook(func(site string) {
+				if site != "srv.read" {
+					sc.point(site)
+				}
+			})
+			defer jrpc2.VerifSetHook(nil)
+		}
+		nrel := 0
+		drain := func(all bool) {
+			synctest.Wait()
+			if !sc.on {
+				return
+			}
+			budget := g.intn(sc.nparked() + 2)
+			for sc.nparked() > 0 && (all || budget > 0) {
+				site := sc.release(g.intn(sc.nparked()))
+				nrel++
+				r.line("ev\tsched\t%s", site)
+				budget--
+			}
+		}
+		r.line("scenario\t%s\t%d\t%d\t%s\t%s", fam, seed, idx, kind, policy)
 
 		// configuration
 		var hook, getter bool
@@ -540,6 +574,7 @@ func runBridgeScenario(t *testing.T, fam string, seed uint64, idx int, out *bufi
 			}
 		}
 		b := jhttp.NewBridge(brAssigner{r}, opts)
+		drain(true)
 
 		// the id vocabulary of the scenario: a few ids, so that they collide within and across POSTs
 		nid := 1 + g.intn(3)
@@ -642,8 +677,11 @@ func runBridgeScenario(t *testing.T, fam string, seed uint64, idx int, out *bufi
 					before := r.getHits
 					r.mu.Unlock()
 					q.launch(b)
-					if stagger || (q.method == "GET" && getter) {
+					if q.method == "GET" && getter {
 						synctest.Wait()
+					}
+					if stagger {
+						drain(false)
 					}
 					r.mu.Lock()
 					if r.getHits != before {
@@ -653,10 +691,10 @@ func runBridgeScenario(t *testing.T, fam string, seed uint64, idx int, out *bufi
 				} else {
 					r.line("ev\trelease\t%s", hexf([]byte(e.rel.p)))
 					r.gates[e.rel.p] <- e.rel.m
-					synctest.Wait()
+					drain(false)
 				}
 			}
-			synctest.Wait()
+			drain(true)
 			for _, q := range reqs {
 				q.logA(r, getterReqs[q.n])
 			}
@@ -669,6 +707,7 @@ func runBridgeScenario(t *testing.T, fam string, seed uint64, idx int, out *bufi
 			}
 		}
 		r.mu.Unlock()
+		sc.off()
 		b.Close()
 		synctest.Wait()
 		for _, q := range reqs {
